@@ -87,6 +87,7 @@ macro_rules! wins_body { ($k:expr) => {{
     let mut distinct = 0; let mut i = 0;
     while i < 3 { let mut seen = false; let mut j = 0; while j < i { if d[j].0 == d[i].0 { seen = true; } j += 1; } if !seen { distinct += 1; } i += 1; }
     assert!(t.0.directives().count() == distinct, "C11.DirectiveSet.equal_key_is_replaced_not_duplicated");
+    core::mem::forget(t);   // the drop glue of the Strings / Vec is not under contract and dominates symbolic execution
 }}; }
 // BOUND: directive shape [a, ab, default] x all levels; queries {a, ab, abc, abcd, b, c} x 5 levels
 #[kani::proof]
@@ -130,4 +131,5 @@ fn c11_static_directive_order_is_total_and_specificity_first_bounded() {
     let la = a.target.as_ref().map(|s| s.len()); let lb = b.target.as_ref().map(|s| s.len());
     assert!(!(la > lb) || a.cmp(&b) == Less, "C11.Ord.longer_target_first");
     assert!(!(la == lb && fa && !fb) || a.cmp(&b) == Less, "C11.Ord.more_field_constraints_first");
+    core::mem::forget(a); core::mem::forget(b); core::mem::forget(c);
 }
